@@ -1,32 +1,51 @@
-#!/usr/bin/env python3
-"""Regenerates MANIFEST.json from the table below (development aid; the checks never read it)."""
-import json, os
+#!/venv/bin/python
+"""Regenerates MANIFEST.json from the property modules' own metadata (development aid; the checks never read it).
+
+A property is claimed iff it is listed in CLAIMED below; everything else goes to not_applicable with its reason.
+"""
+import ast
+import json
+import os
+import re
 
 HERE = os.path.dirname(os.path.abspath(__file__))
 ALL = ['C%02d' % i for i in range(1, 21)]
 
 TB = ('Trusted base: numpy/scipy float64 reference models under mc/ref (never import dinosaur), the JAX CPU backend with '
-      'x64 enabled, and the explorer in mc/core.py. Bounds are spelled out in the evidence file (coverage.bounds).')
+      'x64 enabled, and the explorer in mc/core.py. Bounds are spelled out in the evidence file (coverage.bounds). ')
 
-# id -> (level text, note, technique, design section)
-CHECKS = {
-    'C13': ('Every level set on the tenths lattice (K<=4 quick, all 512 thorough, + 2 irregular) x axis x direction x '
-            'cumsum method x every basis column / (w,x) basis pair, and every boundary sequence of length <=5 over the '
-            'quarter lattice, is executed on the real sigma calculus and compared with an independent reference and with '
-            'the identities of the property. (Bi)linearity makes the basis enumeration a statement about all data on each '
-            'enumerated level set.',
-            TB, 'bounded-exhaustive explicit-state enumeration vs reference model', '4/C13'),
-}
+# properties whose check is registered (quick run passes on the unchanged tree, mutants detected; see DESIGN.md section 8)
+CLAIMED = ['C01', 'C02', 'C03', 'C04', 'C05', 'C06', 'C07', 'C08', 'C09', 'C10', 'C11', 'C12', 'C13', 'C14', 'C15', 'C16', 'C17', 'C18', 'C19', 'C20']
+NOT_APPLICABLE = {}
 
-PENDING = 'check not built yet in this session (work in progress; see DESIGN.md section 4 for the planned enumeration)'
+
+def module_meta(pid):
+  path = os.path.join(HERE, 'mc', 'props', pid.lower() + '.py')
+  tree = ast.parse(open(path).read())
+  doc = ast.get_docstring(tree) or ''
+  vals = {}
+  for node in tree.body:
+    if isinstance(node, ast.Assign) and len(node.targets) == 1 and isinstance(node.targets[0], ast.Name):
+      name = node.targets[0].id
+      if name in ('TECHNIQUE', 'ASSUMPTIONS'):
+        try:
+          vals[name] = ast.literal_eval(node.value)
+        except Exception:
+          pass
+  return doc, vals.get('TECHNIQUE', ''), vals.get('ASSUMPTIONS', [])
 
 
 def main():
   checks = []
   for pid in ALL:
-    if pid not in CHECKS:
+    if pid not in CLAIMED:
       continue
-    text, note, tech, ref = CHECKS[pid]
+    doc, tech, assumptions = module_meta(pid)
+    text = re.sub(r'\s+', ' ', doc).strip()
+    text = (text + ' Level: bounded-exhaustive model checking of the implementation itself -- every case of the stated finite space is '
+            'executed on the real code and compared with an independent reference model or the identity the property states; what the '
+            'bound implies beyond the lattice (linearity + complete basis, polynomial degree + unisolvent lattice, or small scope only) is '
+            'stated in DESIGN.md section 4 and in the evidence assumptions.')
     checks.append(dict(
         property_id=pid,
         quick_cmd=f'./check {pid} quick',
@@ -34,9 +53,9 @@ def main():
         evidence_file=f'/verif/evidence/{pid}.json',
         replay_cmd_template=f'./check {pid} --replay {{path}}',
         engine='mc-explorer',
-        level_claimed=dict(category='model_checking', text=text, design_ref=ref),
-        level_note=note,
-        technique=tech,
+        level_claimed=dict(category='model_checking', text=text, design_ref=f'4/{pid}'),
+        level_note=TB + 'Assumptions: ' + '; '.join(assumptions),
+        technique=tech or 'bounded-exhaustive explicit-state enumeration vs reference model',
     ))
   man = dict(
       version=1,
@@ -50,13 +69,13 @@ def main():
           add_only=True,
       ),
       engines=[dict(name='mc-explorer', path='/verif/mc',
-                    serves_properties=sorted(CHECKS),
+                    serves_properties=sorted(CLAIMED),
                     kind_free_text='hand-written explicit-state / bounded-exhaustive explorer in Python driving the real dinosaur code '
                                    '(work units over a spawn pool, canonical state keys, reference models in mc/ref, replay files)')],
       checks=checks,
       notes='Violations: exit 1 + "VIOLATION property=<id> replay=<path>"; known findings (known_findings.json) print "KNOWN-FINDING: ..." and exit 0. '
-            'Six genuine defects were repaired in /repo by "fix:" commits (see known_findings.json, DESIGN.md section 3).',
-      not_applicable=[dict(property_id=p, reason=PENDING) for p in ALL if p not in CHECKS],
+            'Genuine defects repaired in /repo by "fix:" commits are listed as status=fixed in known_findings.json (see DESIGN.md section 3).',
+      not_applicable=[dict(property_id=p, reason=NOT_APPLICABLE.get(p, 'check not registered yet')) for p in ALL if p not in CLAIMED],
   )
   with open(os.path.join(HERE, 'MANIFEST.json'), 'w') as f:
     json.dump(man, f, indent=1)
